@@ -182,6 +182,9 @@ def _size_of(v):
 class GTensor:
     __array_priority__ = 1000
 
+    base = None     # the tensor object whose memory this one is a view of (numpy view semantics), None: owns its memory
+    contig = True   # certainly C-contiguous (reshape of a contiguous array is a view, of anything else a copy)
+
     def __init__(self, axes, body, dtype="float64"):
         self.axes = [list(a) for a in axes]
         self.body = body
@@ -280,6 +283,30 @@ class GTensor:
 
     def __setitem__(self, idx, val):
         index_update(self, idx, val)
+
+    # numpy's in-place operators write into the array (and into whatever it is a view of): logged for the frame obligations (C15)
+    def _inplace(self, o, op):
+        # The write is logged against the memory it goes to.  The VALUE is carried by a new tensor object bound in place of the old one (Python rebinds the
+        # target of an augmented assignment to what __iop__ returns), which stays a view of the same memory for the alias model: other references to the
+        # old object do not see the new value - the one place where the value semantics of E1-generic is weaker than numpy's (cross-checked natively).
+        r = binop(self, o, op)
+        WRITE_LOG.append(dict(target=root(self), via=self, op="in-place " + op))
+        if r.ndim != self.ndim:
+            raise ValueError("non-broadcastable output operand")
+        r.base, r.contig = root(self), self.contig
+        return r
+
+    def __iadd__(self, o):
+        return self._inplace(o, "add")
+
+    def __isub__(self, o):
+        return self._inplace(o, "sub")
+
+    def __imul__(self, o):
+        return self._inplace(o, "mul")
+
+    def __itruediv__(self, o):
+        return self._inplace(o, "div")
 
     # comparisons on data
     def _cmp(self, o, op):
@@ -1204,6 +1231,7 @@ def index_update(t, idx, values):
             for a, b in zip(va, r):
                 sub[a] = b
     newbody = base.body * (X.const(1) - ind) + v.body.subst(sub) * ind
+    WRITE_LOG.append(dict(target=root(t), via=t, op="index_update / item assignment"))
     t.axes = base.axes
     t.body = newbody
     return t
@@ -1340,3 +1368,51 @@ _FUNCS = {
     "sign": np.sign,
     "clip": lambda x, lo, hi: np.clip(x, None if np.all(np.isinf(lo)) else lo, None if np.all(np.isinf(hi)) else hi),
 }
+
+
+# ------------------------------------------------------------------------------------------------ aliasing (numpy view semantics) and the write log (C15)
+WRITE_LOG = []
+
+
+def root(t):
+    return t.base if getattr(t, "base", None) is not None else t
+
+
+def log_write(t, why):
+    """contract stubs with a `modifies` clause report their writes here"""
+    if isinstance(t, GTensor):
+        WRITE_LOG.append(dict(target=root(t), via=t, op=why))
+
+
+def _view(src, res, contig):
+    if isinstance(res, GTensor) and isinstance(src, GTensor) and res is not src:
+        res.base = root(src)
+        res.contig = bool(contig)
+    return res
+
+
+def _basic_index(idx):
+    tup = idx if isinstance(idx, tuple) else (idx,)
+    return all(i is None or i is Ellipsis or isinstance(i, (slice, builtins.int, np.integer, SInt)) for i in tup)
+
+
+_reshape0, _transpose0, _getitem0 = reshape, transpose, getitem
+
+
+def reshape(t, newshape):
+    r = _reshape0(t, newshape)
+    if isinstance(t, GTensor) and t.contig:
+        _view(t, r, True)      # numpy: reshaping a C-contiguous array never copies
+    return r                   # (of a non-contiguous array: a copy, except in special cases that are not modelled: no alias recorded)
+
+
+def transpose(t, axes=None):
+    r = _transpose0(t, axes)
+    return _view(t, r, isinstance(t, GTensor) and t.ndim <= 1 and t.contig)
+
+
+def getitem(t, idx):
+    r = _getitem0(t, idx)
+    if isinstance(t, GTensor) and _basic_index(idx):
+        _view(t, r, False)     # basic slicing returns a view
+    return r
